@@ -420,7 +420,9 @@ def marker_provenance(ctx, rule):
     sb = RR._search_body(ctx)
     if sb is not None:
         sy = ctx.sym(sb)
-        src, stages = U.chain(sy.local(0))
+        cands = [U.chain(a) for a in U.flatten_phi(sy.local(0))]
+        cands = [c for c in cands if len(c[1]) >= 3]
+        src, stages = cands[0] if cands else (None, [])
         maps = [s for s in stages if s[0] == "map"]
         key = "search-passes-dividers"
         ok = False
